@@ -71,6 +71,15 @@ func (m *Machine) doCall(c *Config, call ssa.CallInstruction) (*Config, []*Confi
 		}
 	}
 	key := funcKey(callee)
+	if m.cur != nil && c.top.fn == m.cur.fn && c.top.parent == nil {
+		if cur := m.contracts.Funcs[m.cur.key]; cur != nil {
+			for _, ac := range cur.AtCalls {
+				if ac.Callee == key {
+					m.atCallObligation(c, call, cur, ac)
+				}
+			}
+		}
+	}
 	if callee.Pkg == m.pkg || (callee.Parent() != nil && callee.Parent().Pkg == m.pkg) {
 		if fc := m.contracts.Funcs[key]; fc != nil && (len(fc.Ensures) > 0 || len(fc.Requires) > 0 || fc.Trusted != "" || fc.HasAssigns || len(fc.Proves) > 0 || fc.Defines != nil) {
 			return m.contractCall(c, call, callee, fc, args)
@@ -760,6 +769,26 @@ func (m *Machine) ghostInvariant(st *State, name string) {
 // at every recursive call G (evaluated in the current state) has grown since entry, or is
 // unchanged and S of the call's arguments is smaller than S of this activation's arguments.
 // Well-foundedness (G is bounded above, S is bounded below) is a stated assumption.
+// atCallObligation: the clause must hold in the state in which the callee is about to be called.
+func (m *Machine) atCallObligation(c *Config, call ssa.CallInstruction, cur *FuncContract, ac *AtCall) {
+	env := m.baseEnv(c)
+	m.bindLocals(c, c.top.fn, env, c.top.block)
+	for _, name := range cur.LetOrder {
+		env.lets[name] = cur.Lets[name]
+	}
+	cv, err := m.eval(env, ac.Clause.Expr)
+	if err != nil {
+		m.errs = append(m.errs, "atcall "+ac.Callee+": "+err.Error())
+		return
+	}
+	g, ok := cv.V.(Term)
+	if !ok || g.Sort != SBool {
+		m.errs = append(m.errs, "atcall "+ac.Callee+": not a boolean")
+		return
+	}
+	m.emit(c, "at-call", ac.Clause.Label, ac.Clause.Props, g, m.site(call), ac.Clause.Src)
+}
+
 // depthObligation: lexicographic decrease of (measure, rank) at a call between two members of a recursion group.
 func (m *Machine) depthObligation(c *Config, call ssa.CallInstruction, cur, callee *FuncContract, calleeEnv *Env) {
 	entryEnv := m.baseEnv(c)
